@@ -146,7 +146,7 @@ def bounded_sweep(contract, rid, quick=300, thorough=5000, cfg="-"):
         budget = quick if tier == "quick" else thorough
         meta = {"cfg": cfg, "obligation": "", "prop": contract.prop, "contract": contract.name}
         cmd = ["/venv/bin/python", os.path.join(here, "replay", "run.py"), "--sweep", rid, json.dumps(meta), str(budget), str(seed)]
-        env = dict(os.environ, PYTHONPATH=os.environ.get("VERIF_REPO", "/repo"))
+        env = dict(os.environ, PYTHONPATH=os.environ.get("VERIF_REPO", "/repo"), PYTHONHASHSEED=str(seed % 4294967295))
         p = subprocess.run(cmd, capture_output=True, text=True, timeout=3000, env=env, cwd=here)
         lines = p.stdout.strip().splitlines()
         try:
